@@ -640,6 +640,7 @@ class TransactionBuilder:
 
         provided.coin -= self._get_total_key_deposit()
         provided.coin -= self._get_total_proposal_deposit()
+        provided.coin -= self.donation or 0
 
         if not requested < provided:
             raise InvalidTransactionException(
@@ -1326,6 +1327,7 @@ class TransactionBuilder:
 
         selected_amount.coin -= self._get_total_key_deposit()
         selected_amount.coin -= self._get_total_proposal_deposit()
+        selected_amount.coin -= self.donation or 0
 
         requested_amount = Value()
         for o in self.outputs:
